@@ -293,7 +293,11 @@ pub fn run_c06(args: &Args) -> i32 {
                         bad.push((fen, d));
                     }
                     for m in p.legal_moves() {
-                        next.push(p.make(m));
+                        let c = p.make(m);
+                        // clock values above 9999 are outside the properties' quantifier
+                        if c.full <= 9999 && c.half <= 9999 {
+                            next.push(c);
+                        }
                     }
                 }
                 frontier = next;
